@@ -168,16 +168,29 @@ class Prop:
     def op(self, w, head, evs):
         k = w[0]
         if self.hook_pending and k != "end":
-            if k == "hlisten":
+            if k in ("hlisten", "hlisten0"):
+                # hook_up contract: the coroutine is subscribed BEFORE the registration function gets the collector, so a
+                # value the registration function emits synchronously finds it waiting.  Those calls are made inside the
+                # listener's own await_suspend: it can only run after that returned (flush at the end of this operation),
+                # and a second call / dropping the collector in between is outside the Flushed contract (tainted).
                 self.hook_pending = False
+                keep = k == "hlisten"
                 i = self.new_listener(w[1])
                 self.await_emitter(i, evs)
-            elif k == "hlisten0":
-                # the collector is dropped by the registration function: subscribed, then disconnected at once
-                self.hook_pending = False
-                i = self.new_listener(w[1])
-                self.await_emitter(i, evs)
-                for j in self.drop_one(0, evs):
+                m = re.match(r"rel=([\d,]+)$", head[2]) if len(head) > 2 else None
+                counts = [int(x) for x in m.group(1).split(",")] if m else []
+                queued, n = [], 0
+                for tok in w[2:]:
+                    if tok == "keep":
+                        keep = True
+                    elif tok == "drop":
+                        keep = False
+                    elif tok.count(":") == 2:
+                        queued += self.emit(int(tok.split(":")[2]), evs, counts[n] if n < len(counts) else None)
+                        n += 1
+                if not keep:
+                    queued += self.drop_one(0, evs)
+                for j in queued:
                     self.resume(j, evs)
             return
         if k == "listen":
@@ -291,7 +304,7 @@ class SigSuite(Suite):
     def gen_case(self, rng, big=False):
         void = rng.random() < 0.25
         flushed = rng.random() < 0.6
-        hook = rng.random() < 0.08
+        hook = rng.random() < 0.12
         nops = rng.randint(4, 12) if rng.random() < 0.3 else rng.randint(10, 40)
         if big:
             nops = rng.randint(40, 120)
@@ -333,12 +346,17 @@ class SigSuite(Suite):
                 st["nlist"] += 1
 
         if hook:
-            if rng.random() < 0.15:
-                listen("hlisten0")
+            # registration function: replays 0/1/2 values synchronously (any flavour), keeps or drops the collector
+            reg = ["e:%s:%d" % (flav(), val()) for _ in range(rng.choice([0, 0, 1, 1, 1, 2]))]
+            dropit = rng.random() < 0.15
+            listen("hlisten0" if dropit and rng.random() < 0.5 else "hlisten")
+            if lines[-1].startswith("hlisten0"):
+                lines[-1] += "".join(" " + t for t in reg)
+            else:
+                lines[-1] += "".join(" " + t for t in reg) + (" drop" if dropit else rng.choice(["", " keep"]))
+            if dropit:
                 st["dead"] = True
                 hs[0] = False
-            else:
-                listen("hlisten")
         # start with a few listeners most of the time
         for _ in range(rng.choice([0, 1, 2, 2, 3, 5, 8] if not big else [4, 8, 12])):
             if rng.random() < 0.7:
@@ -457,6 +475,10 @@ class SigSuite(Suite):
                         flav[key] = flav.get(key, 0) + 1
                 if w[0] == "tlisten":
                     st["thread_subscribed_listeners"] += len(w) - 1
+                if w[0] in ("hlisten", "hlisten0"):
+                    ne = sum(1 for t in w[2:] if t.count(":") == 2)
+                    key = "hook_up/%d-emits-in-registration/%s" % (ne, "drop" if (w[0] == "hlisten0" or "drop" in w[2:]) else "keep")
+                    flav[key] = flav.get(key, 0) + 1
             o = outs.get(str(c["id"]), [])
             txt = " ".join(o)
             st["callback_frees"] += txt.count(":free")
@@ -595,6 +617,11 @@ def linearise(case, out):
         if w[0] == "op":
             if w[2] == "emit":
                 pending[w[1]] = int(w[3])
+            elif w[2] == "reg":
+                # hook_up contract: the coroutine is already waiting when the registration function gets the collector;
+                # if its subscription has not been seen yet, the history is the one the contract promises
+                if int(w[1]) not in sid:
+                    new_listener(int(w[1]))
             elif w[1] == "ctl" and drop_at is None:
                 drop_at = disconnect()
         elif w[0] == "ret":
@@ -681,7 +708,9 @@ class BatonSuite(Suite):
         cases = []
 
         def mk(threads, sched):
-            return {"id": 0, "lines": ["case 0 sigt"] + ["t " + t for t in threads] + ["sched " + " ".join(map(str, sched)), "end"]}
+            hook = any(t.startswith("hook") for t in threads)
+            return {"id": 0, "lines": ["case 0 sigt" + (" hook" if hook else "")] + ["t " + t for t in threads]
+                    + ["sched " + " ".join(map(str, sched)), "end"]}
 
         n = 1200 if tier == "quick" else 30000
         for _ in range(n):
@@ -690,6 +719,10 @@ class BatonSuite(Suite):
             if rng.random() < 0.6:
                 col.insert(rng.randint(0, len(col)), "d") if rng.random() < 0.3 else col.append("d")
             threads = ["col " + " ".join(col)] + [rng.choice(self.SUBS) for _ in range(nsub)]
+            if rng.random() < 0.25:
+                # hook_up(): the signal is created by this listener's first co_await; its registration function hands the
+                # collector to the other threads, which may use it at once
+                threads[1] = "hook " + rng.choice(["-", "-", "x", "rx"])
             rng.shuffle(threads)
             nt = len(threads)
             sched = []
@@ -703,6 +736,13 @@ class BatonSuite(Suite):
                 for sub in self.SUBS:
                     for sc in itertools.product((0, 1), repeat=9):
                         cases.append(mk(["col " + colp, sub], sc))
+            for colp in ("e e d", "e d", "e e"):
+                for sub in ("hook -", "hook x", "hook rx"):
+                    for sc in itertools.product((0, 1), repeat=9):
+                        cases.append(mk(["col " + colp, sub], sc))
+            for sc in itertools.product((0, 1, 2), repeat=7):
+                cases.append(mk(["col e e d", "hook -", "sub -"], sc))
+                cases.append(mk(["col e d", "hook x", "cb 1"], sc))
             for colp in ("e e d", "e d"):
                 for s1, s2 in (("sub -", "cb 0"), ("sub x", "sub -"), ("cb 1", "cb 0"), ("sub rx", "cb 1")):
                     for sc in itertools.product((0, 1, 2), repeat=7):
